@@ -104,6 +104,13 @@ theorem c04_regenerate_within_capacity (s : Store) (n : Nat) (cur c : Cur) (h : 
   obtain ⟨h1, h2⟩ := c04_regenerate_never_above_capacity cls s n cur c
   omega
 
+/-- Along every history GTP and NADH stay within their capacities (no operation at all lifts them above).
+    The same is NOT claimed for ATP, and would be false: a refused ATP spend keeps the NADH it already converted,
+    which can leave ATP above `max_atp` (see the last example of this file) — by `consume`, not by regeneration. -/
+theorem c04_gtp_nadh_stay_within_capacity (sys : Sys) (ops : List Op) (h : Sys.Within sys) :
+    Sys.Within (run cls sys ops).1 :=
+  run_within cls ops sys h
+
 /-- Regeneration adds at most the regenerated amount to the net worth and never raises. -/
 theorem c04_regenerate_adds_at_most (s : Store) (n : Nat) (cur : Cur) :
     (regenerate cls s n cur).1.worth ≤ s.worth + n ∧ (regenerate cls s n cur).2 = .ok () :=
@@ -260,6 +267,13 @@ example : payLoop cN 0 4 .atp true 10 [.convert 0 1, .interest 0] 100 sys0 = (4,
     payLoop cN 0 4 .atp true 10 [.convert 0 1, .interest 0] 2 sys0 = (2, false) := by decide
 /-- `c04_failed_transfer_is_free`: a refused transfer exists -/
 example : (step cN sys0 (.transfer 1 0 1 .atp)).2 = .bool false := by decide
+/-- `c04_gtp_nadh_stay_within_capacity`: `Sys.Within` holds for every constructed colony -/
+example : Sys.Within sys0 := by
+  intro i s h
+  match i, h with
+  | 0, h => simp [sys0] at h; subst h; exact fresh_within ..
+  | 1, h => simp [sys0] at h; subst h; exact fresh_within ..
+  | k + 2, h => simp [sys0] at h
 /-- `c04_regenerate_within_capacity`: hypothesis met, and the clamp is exercised (10 + 7 clamps to 12 … -/
 example : ((regenerate cN { Store.fresh 12 0 0 0 1 10 with atp := 10 } 7 .atp).1.atp) = 12 := by decide
 /-- … while a balance that a refused top-up left above capacity is pulled back, never pushed further). -/
